@@ -217,3 +217,74 @@ End Spec.
 
 Definition ok_C04 (c : case04) (obs : list obs04) : bool :=
   check_hist (c_hb c) (c_pre c) (c_n c) (c_heap c) (c_ops c) obs.
+
+(* ================================================================== C04big - LARGE transfers
+   One bulk operation on a container of up to 1 MiB.  Contents are not on the wire: the heap
+   and the caller's buffer are filled with two deterministic patterns over DISJOINT byte
+   ranges (heap bytes < 127, buffer bytes >= 128), so every byte written from the buffer
+   changes the heap; the harness computes the expected heap / buffer with plain slice copies
+   and reports where the real result first differs from it.  The checker judges, from the
+   property text and from lengths only:
+     - the reported count = the requested amount cut off at the end of the container / array,
+     - a request whose accessor does not lie in the container is an error and moves nothing,
+     - exactly the addressed bytes moved, in address order: no difference from the expected
+       heap and buffer (bufdiff = heapdiff = NONE),
+     - every other byte unchanged: the first and the last changed heap position lie in the
+       destination range.
+   case: kind al n route size off cnt blen off2 cnt2 salt      obs: kind count bufdiff heapdiff first last *)
+Inductive broute := BWrite | BRead | BWriteSlice | BReadSlice | BArrCopyTo | BArrCopyFrom | BArrCopyToVs
+                  | BSlCopyTo | BSlCopyFrom | BSlCopyToVs.
+Record bigcase := { b_pre : N; b_n : N; b_route : broute; b_sz : N; b_off : N; b_cnt : N; b_blen : N;
+                    b_off2 : N; b_cnt2 : N }.
+Record bigobs := { bo_kind : N; bo_count : N; bo_bufdiff : N; bo_heapdiff : N; bo_first : N; bo_last : N }.
+Definition BNONE : N := 18446744073709551615.
+
+(* what the property demands: must the call succeed, the count it reports, and the heap bytes
+   [lo, lo+m) (container offsets) that are written *)
+Record bigexp := { x_must : option bool; x_count : N; x_lo : N; x_m : N }.
+Definition big_spec (c : bigcase) : bigexp :=
+  let n := b_n c in let off := b_off c in let sz := b_sz c in
+  let bytes_io (into : bool) (all : bool) :=
+    if b_blen c =? 0 then {| x_must := Some true; x_count := 0; x_lo := 0; x_m := 0 |}
+    else if n <=? off then {| x_must := Some false; x_count := 0; x_lo := 0; x_m := 0 |}
+    else let k := N.min (b_blen c) (n - off) in
+         {| x_must := Some (if all then k =? b_blen c else true); x_count := if all then 0 else k;
+            x_lo := off; x_m := if into then k else 0 |} in
+  let inside (o b : N) : bool := o + b <=? n in
+  let refuse := {| x_must := Some false; x_count := 0; x_lo := 0; x_m := 0 |} in
+  match b_route c with
+  | BWrite => bytes_io true false
+  | BRead => bytes_io false false
+  | BWriteSlice => bytes_io true true
+  | BReadSlice => bytes_io false true
+  | BArrCopyTo =>
+      if inside off (b_cnt c * sz) then {| x_must := Some true; x_count := N.min (b_blen c) (b_cnt c); x_lo := 0; x_m := 0 |}
+      else refuse
+  | BArrCopyFrom =>
+      if inside off (b_cnt c * sz) then {| x_must := Some true; x_count := 0; x_lo := off; x_m := N.min (b_blen c) (b_cnt c) * sz |}
+      else refuse
+  | BArrCopyToVs =>
+      if inside off (b_cnt c * sz) && inside (b_off2 c) (b_cnt2 c)
+      then {| x_must := Some true; x_count := 0; x_lo := b_off2 c; x_m := N.min (b_cnt c * sz) (b_cnt2 c) |}
+      else refuse
+  | BSlCopyTo =>
+      if inside off (b_cnt c) then {| x_must := Some true; x_count := N.min (b_blen c) (b_cnt c / sz); x_lo := 0; x_m := 0 |}
+      else refuse
+  | BSlCopyFrom =>
+      if inside off (b_cnt c) then {| x_must := Some true; x_count := 0; x_lo := off; x_m := N.min (b_blen c) (b_cnt c / sz) * sz |}
+      else refuse
+  | BSlCopyToVs =>
+      if inside off (b_cnt c) && inside (b_off2 c) (b_cnt2 c)
+      then {| x_must := Some true; x_count := 0; x_lo := b_off2 c; x_m := N.min (b_cnt c) (b_cnt2 c) |}
+      else refuse
+  end.
+
+Definition big_frame (c : bigcase) (e : bigexp) (ob : bigobs) : bool :=
+  if bo_first ob =? BNONE then bo_last ob =? BNONE
+  else (b_pre c + x_lo e <=? bo_first ob) && (bo_first ob <=? bo_last ob) && (bo_last ob <? b_pre c + x_lo e + x_m e).
+
+Definition ok_C04big (c : bigcase) (ob : bigobs) : bool :=
+  let e := big_spec c in
+  (if bo_kind ob =? 0 then opt_allows (x_must e) true && (bo_count ob =? x_count e)
+   else opt_allows (x_must e) false) &&
+  (bo_bufdiff ob =? BNONE) && (bo_heapdiff ob =? BNONE) && big_frame c e ob.
